@@ -61,11 +61,18 @@ func (pc *parentController) callHook(
 		return nil, nil
 	}
 
+	// Drop null entries: everything downstream dereferences the children.
+	nonNil := response.Children[:0]
 	for _, child := range response.Children {
-		if child != nil && child.GetNamespace() == "" {
+		if child == nil {
+			continue
+		}
+		if child.GetNamespace() == "" {
 			child.SetNamespace(parent.GetNamespace())
 		}
+		nonNil = append(nonNil, child)
 	}
+	response.Children = nonNil
 
 	return &response, nil
 }
